@@ -416,6 +416,10 @@ class Shadow:
                             'привет' if udf else 'p', '日本語' if udf else 'n'])
             comps.append(c)
         s = '/'.join(comps)
+        if rng.random() < 0.15:
+            # many medium components: some boundary between SL records falls exactly between two components
+            w = rng.choice([3, 6, 11, 17])
+            s = '/'.join('%s%02d' % ('c' * (w - 2), i) for i in range(rng.choice([20, 30, 45, 64])))
         if rng.random() < 0.3:
             s = '/' + s
         return s
@@ -447,6 +451,9 @@ class Shadow:
                 self.remove(n)
         elif kind == 'rmname':
             node, ns = effect[1], effect[2]
+            if node.kind == 'file':
+                # the freed name may come back for other content (stale lookups by that name)
+                self.graveyard.append((node.parent, False, {ns: node.names[ns]}, node.rr if ns == 'i' else None))
             del node.names[ns]
             if ns == 'i':
                 node.rr = None
@@ -542,6 +549,19 @@ def directed(cfg):
     out.append(('path-table-back-to-two-sectors', many + [rm('rmdir', root, 'PPPPP%03d' % i, 'ppppp%03d' % i) for i in (257, 100, 256, 3)]))
     # Joliet directory of two sectors next to an ISO9660 directory of one (long UCS-2 names, short identifiers)
     out.append(('joliet-two-sectors', [addfp(root, 'F%02d.;1' % i, 'file-%02d-with-a-long-joliet-name-xxxxxxxxxx' % i, n=60 + i, rr='f%02d' % i) for i in range(30)]))
+    if cfg.get('udf'):
+        # one of two UDF names of a file is unlinked and the name is given to other content
+        f1 = addfp(root, 'FOO.;1', 'foo', n=3808)
+        f2 = addfp(root, 'BAR2.;1', 'bar', n=3001)
+        f2.pop('joliet', None)
+        out.append(('udf-link-name-reused', [f1, {'op': 'addlink', 'ons': 'u', 'old': '/foo', 'nns': 'u', 'new': '/bar'},
+                                             {'op': 'query', 'ns': 'u', 'path': '/bar'}, {'op': 'rmlink', 'ns': 'u', 'path': '/bar'}, f2]))
+    if cfg.get('joliet'):
+        g1 = addfp(root, 'FOO.;1', 'foo', n=3808)
+        g2 = addfp(root, 'BAR2.;1', 'bar', n=3001)
+        g2.pop('udf', None)
+        out.append(('joliet-link-name-reused', [g1, {'op': 'addlink', 'ons': 'j', 'old': '/foo', 'nns': 'j', 'new': '/bar'},
+                                                {'op': 'query', 'ns': 'j', 'path': '/bar'}, {'op': 'rmlink', 'ns': 'j', 'path': '/bar'}, g2]))
     if cfg.get('udf'):
         # a directory that exists in UDF only is removed and made again (lookups in between must not be remembered)
         out.append(('udf-only-dir-recreated', [{'op': 'adddir', 'udf': '/dir1'}, {'op': 'addfp', 'cid': 2900, 'n': 4, 'udf': '/dir1/a'},
